@@ -792,6 +792,19 @@ theorem predicate_malformed_valueerror {V} (P : Pep V) (s : List Char) :
   · intro pred vs h
     simp [satisfiedBy, Pep.version, h]
 
+/-- **History independence** — one predicate object asked any sequence of candidates (repeats,
+    alternations, invalid candidates in between) answers each call exactly as a single call with
+    that candidate would: the k-th answer depends on the k-th candidate only. -/
+theorem predicate_history_independent {V} (P : Pep V) (pred : List (List Char × V))
+    (vs : List (List Char)) :
+    satRun P pred vs = vs.map (satisfiedBy P pred) ∧
+    ∀ k : Nat, (satRun P pred vs)[k]? = (vs[k]?).map (satisfiedBy P pred) := by
+  have h : satRun P pred vs = vs.map (satisfiedBy P pred) := by
+    induction vs with
+    | nil => rfl
+    | cons v t ih => simp [satRun, ih]
+  exact ⟨h, fun k => by rw [h, List.getElem?_map]⟩
+
 /-! ### non-vacuity -/
 
 example : Canonical [1, 0, 999] ∧ Canonical [999] ∧ ¬ Canonical [0, 1] ∧ ¬ Canonical [1, 1000] := by decide
